@@ -182,7 +182,26 @@ func (x *Exec) applyContract(c *Contract, fn *ssa.Function, sig *types.Signature
 	}
 	for _, cl := range c.clauses("requires") {
 		t := x.evalBool(env, cl.expr())
-		x.oblige(kind, detail, clauseProps(cl, c), t, cl.Text)
+		d := detail
+		if cl.Label != "" {
+			d = detail + "/" + cl.Label
+		}
+		x.oblige(kind, d, clauseProps(cl, c), t, cl.Text)
+		// a known finding recorded for this clause label with an "except" class: also generate the
+		// obligation restricted to everything outside that class, so that any other failure is still a violation
+		if cl.Label != "" {
+			for _, k := range x.eng.known {
+				if k.Status == "open" && k.Label == cl.Label && k.Except != "" {
+					ex := x.evalBool(env, parseExpr(k.Except, "known_findings.txt"))
+					n := len(x.sc.obs)
+					x.oblige(kind, d+"/outside-known-class", clauseProps(cl, c), or(ex, t), "outside the recorded class ("+k.Except+"): "+cl.Text)
+					if len(x.sc.obs) > n {
+						x.sc.obs[len(x.sc.obs)-1].WeakOf = x.sc.obs[len(x.sc.obs)-2].Name
+						x.sc.obs[len(x.sc.obs)-1].NoAssume = true
+					}
+				}
+			}
+		}
 	}
 	// havoc the frame
 	for _, cl := range c.clauses("modifies") {
